@@ -399,6 +399,14 @@ func substParams(out string, h *core.FuncInfo, call *ast.CallExpr, fn *core.Func
 			subs = append(subs, sub{"param:" + p.Name(), origin(fn, call.Args[i], depth)})
 		}
 	}
+	// the variadic parameter stands for the remaining arguments
+	if sig.Variadic() && len(ps) > 0 && !call.Ellipsis.IsValid() {
+		var rest []string
+		for i := len(ps) - 1; i < len(call.Args); i++ {
+			rest = append(rest, origin(fn, call.Args[i], depth))
+		}
+		subs = append(subs, sub{"param:" + ps[len(ps)-1].Name(), "variadic(" + strings.Join(rest, ", ") + ")"})
+	}
 	if sig.Recv() != nil {
 		if sel, ok := ast.Unparen(call.Fun).(*ast.SelectorExpr); ok && h.Decl.Recv != nil && len(h.Decl.Recv.List) > 0 && len(h.Decl.Recv.List[0].Names) > 0 {
 			subs = append(subs, sub{"param:" + h.Decl.Recv.List[0].Names[0].Name, origin(fn, sel.X, depth)})
@@ -491,4 +499,85 @@ func replaceToken(s, from, to string) string {
 		b.WriteString(to)
 		s = s[end:]
 	}
+}
+
+// findLitDeep finds the composite literal a struct-valued expression of fn denotes, looking through locals, through
+// a helper of the package that returns one (single return statement) and through field selections of such values
+// (registration.param with registration := prepare(..) returning T{param: P{...}}). owner is the function the
+// literal is written in.
+func findLitDeep(fn *core.FuncInfo, e ast.Expr, depth int) (*ast.CompositeLit, *core.FuncInfo) {
+	if depth <= 0 || e == nil {
+		return nil, nil
+	}
+	if cl := findCompositeLit(fn, e); cl != nil {
+		return cl, fn
+	}
+	info := fn.Pkg.TypesInfo
+	e = ast.Unparen(e)
+	if u, ok := e.(*ast.UnaryExpr); ok && u.Op == token.AND {
+		e = ast.Unparen(u.X)
+	}
+	switch x := e.(type) {
+	case *ast.Ident:
+		if v, ok := info.Uses[x].(*types.Var); ok && !isParam(fn, v) {
+			if defs := localDefs(fn, v); len(defs) == 1 && !defs[0].rng {
+				if defs[0].idx > 0 {
+					return nil, nil
+				}
+				return findLitDeep(fn, defs[0].rhs, depth-1)
+			}
+		}
+	case *ast.CallExpr:
+		if curWorld == nil {
+			return nil, nil
+		}
+		h := curWorld.Info(core.Callee(info, x))
+		if h == nil || h.Pkg != fn.Pkg || h.Decl.Body == nil || h == fn {
+			return nil, nil
+		}
+		var rets []*ast.ReturnStmt
+		ast.Inspect(h.Decl.Body, func(n ast.Node) bool {
+			if _, isLit := n.(*ast.FuncLit); isLit {
+				return false
+			}
+			if rs, ok := n.(*ast.ReturnStmt); ok {
+				rets = append(rets, rs)
+			}
+			return true
+		})
+		// the value-carrying return: the last one whose first result is not a zero literal / nil
+		var val ast.Expr
+		for _, rs := range rets {
+			if len(rs.Results) == 0 {
+				continue
+			}
+			r0 := ast.Unparen(rs.Results[0])
+			if id, ok := r0.(*ast.Ident); ok && id.Name == "nil" {
+				continue
+			}
+			if cl, ok := r0.(*ast.CompositeLit); ok && len(cl.Elts) == 0 {
+				continue
+			}
+			if u, ok := r0.(*ast.UnaryExpr); ok && u.Op == token.AND {
+				if cl, ok := ast.Unparen(u.X).(*ast.CompositeLit); ok && len(cl.Elts) == 0 {
+					continue
+				}
+			}
+			if val != nil {
+				return nil, nil // several value-carrying returns
+			}
+			val = rs.Results[0]
+		}
+		if val == nil {
+			return nil, nil
+		}
+		return findLitDeep(h, val, depth-1)
+	case *ast.SelectorExpr:
+		if outer, owner := findLitDeep(fn, x.X, depth-1); outer != nil {
+			if fv := litField(outer, x.Sel.Name); fv != nil {
+				return findLitDeep(owner, fv, depth-1)
+			}
+		}
+	}
+	return nil, nil
 }
